@@ -848,6 +848,14 @@ def is_plain(x) -> bool:
     return False
 
 
+def has_special_keys(x) -> bool:
+    if isinstance(x, list):
+        return any(has_special_keys(i) for i in x)
+    if isinstance(x, dict):
+        return any(k is ... or isinstance(k, optional) or has_special_keys(v) for k, v in x.items())
+    return False
+
+
 def oracle_C14(inp, meta=None):
     from d42.utils import from_native
     x = build(inp["value"])
@@ -860,7 +868,9 @@ def oracle_C14(inp, meta=None):
     except Exception as e:
         if is_plain(x):
             return True, f"from_native({x!r}) raised {e!r}"
-        return False, f"outside the plain-value domain: {e!r}"
+        if has_special_keys(x):
+            return False, f"outside the plain-value domain (`...` / optional dict keys): {e!r}"
+        return True, f"from_native({x!r}) refused with {e!r} instead of ValueError"
     if not is_plain(x):
         if isinstance(x, (tuple, set, frozenset, bytearray, complex)) or type(x).__name__ in ("Opaque", "Decimal", "Fraction"):
             return True, f"from_native({x!r}) accepted a non-plain kind: {R!r}"
@@ -877,7 +887,76 @@ def oracle_C14(inp, meta=None):
     return False, f"from_native({x!r}) = {R!r} denotes the value"
 
 
-ORACLES.update({"C14": oracle_C14})
+def _probe_values(schemas):
+    """values to compare verdicts on: generated from each schema, plus one-step perturbations"""
+    vals = [None, 0, "x", [], {}]
+    for S_ in schemas:
+        for _, g in _samples(S_)[:6]:
+            if isinstance(g, Exception):
+                continue
+            vals.append(g)
+            if isinstance(g, dict):
+                for k in list(g):
+                    h = dict(g)
+                    del h[k]
+                    vals.append(h)
+                vals.append({**g, "__extra__": 1})
+    return vals
+
+
+def oracle_C13(inp, meta=None):
+    from d42.utils import make_required
+    kind = (meta or {}).get("kind")
+    if "keys" in inp and "schema" in inp:                      # make_required
+        d, ks = build(inp["schema"]), build(inp["keys"])
+        if not isinstance(d, DictSchema):
+            return False, "not a dict schema"
+        try:
+            R = make_required(d, ks)
+        except DeclarationError:
+            return False, "rejected"
+        except Exception as e:
+            return True, f"make_required raised {e!r}"
+        listed = list(d.keys()) if ks is None else list(ks)
+        listed = [k for k in listed if k is not ...]
+        for v in _probe_values([d, R]) + ([build(inp["value"])] if "value" in inp else []):
+            want = conforms(d, v) and isinstance(v, dict) and all(k in v for k in listed)
+            got = not validate(R, v).has_errors()
+            if got != want:
+                return True, f"make_required({d!r}, {ks!r}) = {R!r}: value {v!r} accepted={got}, expected {want}"
+        return False, "make_required means what it says"
+    if "self" in inp and "other" in inp:
+        a, b = build(inp["self"]), build(inp["other"])
+        if isinstance(a, DictSchema) and isinstance(b, DictSchema) and (kind in (None, "add") or "DictSchema.__add__" in str(meta)):
+            try:
+                R = a + b
+            except Exception as e:
+                return True, f"{a!r} + {b!r} raised {e!r}"
+            ka = dict(a.props.keys) if a.props.keys is not Nil else {}
+            kb = dict(b.props.keys) if b.props.keys is not Nil else {}
+            want_keys = {**ka, **kb}
+            if dict(R.props.keys) != want_keys:
+                return True, f"{a!r} + {b!r} = {R!r}: keys differ from d1's overridden/extended by d2's"
+            E = DictSchema(type(a.props)().update(keys=want_keys))
+            for v in _probe_values([a, b, R]):
+                if validate(R, v).has_errors() != (not conforms(E, v)):
+                    return True, f"{a!r} + {b!r}: value {v!r} verdict differs from the merged key table"
+            return False, "d1 + d2 is the right-biased merge"
+        if isinstance(a, Schema):
+            try:
+                R = a | b
+            except DeclarationError:
+                return isinstance(b, Schema), "union rejected"
+            except Exception as e:
+                return True, f"{a!r} | {b!r} raised {e!r}"
+            for v in _probe_values([a, b, R]):
+                if (not validate(R, v).has_errors()) != (conforms(a, v) or conforms(b, v)):
+                    return True, f"({a!r} | {b!r}) on {v!r}: accepted={not validate(R, v).has_errors()}"
+            return False, "a | b accepts the union"
+    raise Unreachable("no C13 oracle for these inputs")
+
+
+ORACLES.update({"C14": oracle_C14, "C13": oracle_C13})
 ORACLES.update({"C10": oracle_C10, "C11": oracle_C11, "C01": oracle_C01, "C04": oracle_C04,
                 "C05": oracle_C05, "C12": oracle_C12})
 
